@@ -18,6 +18,7 @@ INTRINSIC = {
     'amax1': ('bx_fmax', 'd'), 'amin1': ('bx_fmin', 'd'), 'dmax1': ('bx_fmax', 'd'), 'dmin1': ('bx_fmin', 'd'),
     'max0': ('bx_imax', 'i'), 'min0': ('bx_imin', 'i'), 'iabs': ('bx_iabs', 'i'),
     'float': ('(double)', 'd'), 'real': ('(double)', 'd'), 'dble': ('(double)', 'd'), 'sngl': ('(double)', 'd'),
+    'lngammaabs': ('bx_lngamma_abs', 'd'),
     'int': ('(int)', 'i'), 'ifix': ('(int)', 'i'), 'nint': ('bx_nint', 'i'), 'mod': ('bx_imod', 'i'),
 }
 
@@ -187,6 +188,8 @@ class Ctx:
         self.tmpn = 0
         self.pre = []
         self.commons_used = {}
+        self.state_commons = {}
+        self.proc_dummies = set()
 
     def vtype(self, name):
         if name in self.u.types:
@@ -199,6 +202,13 @@ class Ctx:
             # scalar of the reference event record (npfull, tevst): state of the abstract event
             self.calls.add('ref_' + name)
             return E('var', name='ref_ev_' + name, extra='global'), t
+        blk = self.prog.common_of.get(self.u.name, {}).get(name)
+        if blk is not None and name not in self.prog.common_init:
+            # a common block that carries STATE between units (parbeta, ...): storage is positional, names are per unit
+            pos = self.u.commons[blk].index(name)
+            g = 'cm_%s_%d' % (blk, pos)
+            self.state_commons[g] = (t, self.prog.common_arrays[self.u.name].get(name), blk, pos)
+            return E('var', name=g, extra='global'), t
         if name in self.prog.common_of.get(self.u.name, {}):
             self.commons_used[name] = (t, self.prog.common_arrays[self.u.name].get(name))
         elif name not in self.u.args:
@@ -407,6 +417,10 @@ class Parser:
                 # user function
                 a = self.args()
                 return self.c.prog.function_call(self.c, x, a)
+            if x in self.c.u.externals and x not in self.c.u.args:
+                # a procedure name passed as an actual argument
+                self.c.calls.add(x)
+                return E('fn', name='ref_' + x, extra='ref'), 'f'
             e, t = self.c.var(x)
             return e, t
         raise Unsupported('expression atom %s %s' % (k, x))
@@ -425,6 +439,20 @@ class Program:
         self.common_arrays = {}  # unit -> {var: dims}
         self.assigned_dummies = {}
         self.callmap = {}
+        fu = self.units.get('fermi')
+        if fu is not None:
+            # complex arithmetic of the reference is not rendered.  The only use is  alog(cabs(cgamma(cmplx(g,y)))) =
+            # Re ln Gamma(g+iy), which the port obtains from gsl_sf_lngamma_complex_e(g,y).lnr: both become the same
+            # uninterpreted bx_lngamma_abs(g,y) (the special function itself is assumed, DESIGN 3 C01).
+            new = []
+            for lab, t, n in fu.stmts:
+                if re.match(r'^complex\b', t) or re.match(r'^carg\s*=\s*cmplx\(g,y\)$', t.replace(' ', '')):
+                    continue
+                t2 = t.replace('alog(cabs(cgamma(carg)))', 'lngammaabs(g,y)')
+                if 'cgamma' in t2 or 'cmplx' in t2:
+                    raise Unsupported('fermi: unexpected complex arithmetic: ' + t2[:60])
+                new.append((lab, t2, n))
+            fu.stmts = new
         for u in self.units.values():
             self.declarations(u)
         self.dummy_fixpoint()
@@ -520,6 +548,10 @@ class Program:
                     if cu and k < len(cu.args) and cu.args[k] in direct[callee] and a not in direct[un]:
                         direct[un].add(a)
                         ch = True
+        # fermi(Z,E) clamps its dummy E to 50 eV in place.  Every caller passes E >= 50 eV (beta: E = 50e-6 + ...; tgold
+        # searches [50e-6, Q]), so the write-back is unobservable; E is rendered by value (stated assumption).
+        if 'fermi' in direct:
+            direct['fermi'].discard('e')
         self.assigned_dummies = direct
 
     # ---- hooks used by the expression parser --------------------------------------------------
@@ -533,12 +565,21 @@ class Program:
             ctx.calls.add('ref_' + name)
             return E('call', a='ref_' + name, args=es), t
         if len(es) == 1:
+            if blk is not None and name not in self.common_init:
+                pos = u.commons[blk].index(name)
+                g = 'cm_%s_%d' % (blk, pos)
+                ctx.state_commons[g] = (t, self.common_arrays[u.name].get(name), blk, pos)
+                return E('index', a=E('var', name=g, extra='global'), b=E('bin', op='-', a=es[0], b=E('ilit', name='1'))), t
             if blk is not None:
                 ctx.commons_used[name] = (t, self.common_arrays[u.name].get(name))
             return E('index', a=E('var', name=name, extra='local'), b=E('bin', op='-', a=es[0], b=E('ilit', name='1'))), t
         raise Unsupported('multi-dimensional array ' + name)
 
     def function_call(self, ctx, name, args):
+        if name in ctx.u.args and name not in ctx.u.arrays:
+            # call through a dummy procedure
+            ctx.proc_dummies.add(name)
+            return E('call', a=E('var', name=name, extra='local'), args=[e for e, t in args], extra={'indirect': True}), 'd'
         ctx.calls.add(name)
         cu = self.units.get(name)
         rt = 'd'
@@ -574,6 +615,8 @@ class Program:
         f.cxxname = name
         f.file = os.path.basename(self.path)
         items = self.block(ctx, list(u.body), 0, len(u.body))
+        if u.kind == 'function':
+            items.append(S('return', e=E('var', name=name, extra='local')))
         f.body = S('block', items=items, synthetic=False)
         f.ret = 'void'
         if u.kind == 'function':
@@ -583,7 +626,7 @@ class Program:
         outs = self.assigned_dummies.get(name, set())
         for a in u.args:
             t = u.types.get(a) or ('i' if a[0] in 'ijklmn' else 'd')
-            if a in u.externals:
+            if a in u.externals or a in ctx.proc_dummies:
                 f.params.append((None, a, 'double (*)(double)', False))
                 continue
             ct = {'d': 'double', 'i': 'int', 'l': 'bool', 'c': 'std::string'}[t]
@@ -605,6 +648,7 @@ class Program:
             else:
                 f.locals.append((ct, nm, None))
         f.commons = dict(ctx.commons_used)
+        f.state_commons = dict(ctx.state_commons)
         for nm, (t, dims) in ctx.commons_used.items():
             ct = {'d': 'double', 'i': 'int', 'l': 'bool'}.get(t)
             if ct is None:
@@ -682,6 +726,8 @@ class Program:
         if m:
             return S('goto', label='label_' + str(int(m.group(1))))
         if t == 'return':
+            if ctx.u.kind == 'function':
+                return S('return', e=E('var', name=ctx.u.name, extra='local'))
             return S('return', e=None)
         if t == 'continue':
             return S('empty', why='')
@@ -722,8 +768,14 @@ class Program:
             if len(ix) != 1:
                 raise Unsupported('multi-dim assignment ' + name)
             lt = u.types.get(name) or ('i' if name[0] in 'ijklmn' else 'd')
-            lhs = E('index', a=E('var', name=name, extra='local'), b=E('bin', op='-', a=ix[0][0], b=E('ilit', name='1')))
-            ctx.locals.setdefault(name, lt)
+            if blk is not None and name not in self.common_init:
+                pos = u.commons[blk].index(name)
+                g = 'cm_%s_%d' % (blk, pos)
+                ctx.state_commons[g] = (lt, self.common_arrays[u.name].get(name), blk, pos)
+                lhs = E('index', a=E('var', name=g, extra='global'), b=E('bin', op='-', a=ix[0][0], b=E('ilit', name='1')))
+            else:
+                lhs = E('index', a=E('var', name=name, extra='local'), b=E('bin', op='-', a=ix[0][0], b=E('ilit', name='1')))
+                ctx.locals.setdefault(name, lt)
         else:
             lhs, lt = ctx.var(name)
             if u.kind == 'function' and name == u.name:
